@@ -4,7 +4,7 @@
 # For each seed the checks listed in meta.json ("checks") are run at quick tier; output: one line per (seed, check).
 HERE="$(cd "$(dirname "${BASH_SOURCE[0]}")/.." && pwd)"
 cd "$HERE"
-seeds=("$@"); [ ${#seeds[@]} -eq 0 ] && seeds=(seeded/*/)
+seeds=("$@"); [ ${#seeds[@]} -eq 0 ] && seeds=(seeded/C*/)
 for s in "${seeds[@]}"; do
   s="${s%/}"
   checks=$(python3 -c "import json,sys; print(' '.join(json.load(open('$s/meta.json'))['checks']))" 2>/dev/null)
